@@ -39,11 +39,48 @@ impl<'a> Cur<'a> {
   }
 }
 
-const ALPH_MB: &[&str] = &["a", "é", "日", "😀", ";", "\n", "{", " ", "b", "\n", "}", "ß", "\u{2028}", "x\r", "\t", "fn"];
+const ALPH_MB: &[&str] = &[
+  "a", "é", "日", "😀", ";", "\n", "{", " ", "b", "\n", "}", "ß", "\u{2028}", "x\r", "\t", "fn", "\u{feff}", "»", "们", "\u{8a}", "⊻", "\u{a0}", "ý", "\n",
+];
+const ALPH_ASCII: &[&str] = &["a", "b", "c", " ", ";", "{", "}", "\n", "\n", "xy", "\t", "fn", "\r", "a", "\n"];
 
 pub fn text(c: &mut Cur, max: usize) -> String {
   let n = c.below(max + 1);
   (0..n).map(|_| ALPH_MB[c.below(ALPH_MB.len())]).collect()
+}
+
+/// text for a tree under `cfg`: ASCII or multi-byte alphabet; a length byte of 255 asks for a long text
+/// (a short pattern repeated beyond 520 / 1100 / 4100 bytes)
+pub fn text_cfg(c: &mut Cur, cfg: GenCfg) -> String {
+  let alph: &[&str] = if cfg.ascii { ALPH_ASCII } else { ALPH_MB };
+  let lb = c.u8();
+  if lb == 255 {
+    let n = 1 + c.below(6);
+    let mut pat: String = (0..n).map(|_| alph[c.below(alph.len())]).collect();
+    let k = c.u8();
+    if k & 1 == 0 {
+      pat = pat.replace('\n', "");
+    }
+    if pat.is_empty() {
+      pat.push('a');
+    }
+    let want = [520usize, 1100, 4100][(k as usize >> 1) % 3];
+    let mut out = String::new();
+    while out.len() < want {
+      out.push_str(&pat);
+    }
+    return out;
+  }
+  let n = lb as usize % (cfg.max_tokens + 1);
+  (0..n).map(|_| alph[c.below(alph.len())]).collect()
+}
+
+pub fn bytes_cfg(c: &mut Cur, cfg: GenCfg) -> Vec<u8> {
+  if cfg.invalid_utf8 {
+    bytes(c, cfg.max_tokens)
+  } else {
+    text_cfg(c, cfg).into_bytes()
+  }
 }
 
 pub fn bytes(c: &mut Cur, max: usize) -> Vec<u8> {
@@ -66,30 +103,43 @@ fn abs_map(c: &mut Cur, wild_ok: bool) -> AbsMap {
   let nsrc = 1 + c.u8() % 3;
   let nnames = c.u8() % 4;
   let flags = c.u8();
-  AbsMap::new(segs, nsrc, nnames, flags & 1 != 0, (flags >> 1) % 3, (flags >> 3) % 8, (flags >> 6) % 4, wild_ok && c.u8() % 2 == 0)
+  let m = AbsMap::new(segs, nsrc, nnames, flags & 1 != 0, (flags >> 1) % 4, (flags >> 3) % 8, (flags >> 6) % 4, wild_ok && c.u8() % 2 == 0);
+  if c.u8() % 4 == 0 {
+    m.with_dups()
+  } else {
+    m
+  }
 }
 
 pub fn spec(c: &mut Cur, depth: u32, cfg: GenCfg) -> Spec {
   let k = if depth == 0 { c.below(8) } else { c.below(14) };
+  // node kinds the configuration excludes fall back to an OriginalSource / a raw leaf / a Box
+  let k = match k {
+    6 if !cfg.sms => 4,
+    7 if !cfg.sms_inner => 5,
+    10 | 11 if !cfg.replace => 13,
+    12 if !cfg.cached => 13,
+    k => k,
+  };
   match k {
-    0 => Spec::Raw(text(c, cfg.max_tokens)),
-    1 => Spec::RawStr(text(c, cfg.max_tokens)),
-    2 => Spec::RawBuf(bytes(c, cfg.max_tokens)),
-    3 => Spec::RawBytes(bytes(c, cfg.max_tokens)),
-    4 | 5 => Spec::Orig { text: text(c, cfg.max_tokens), name: format!("f{}.js", c.below(5)) },
+    0 => Spec::Raw(text_cfg(c, cfg)),
+    1 => Spec::RawStr(text_cfg(c, cfg)),
+    2 => Spec::RawBuf(bytes_cfg(c, cfg)),
+    3 => Spec::RawBytes(bytes_cfg(c, cfg)),
+    4 | 5 => Spec::Orig { text: text_cfg(c, cfg), name: format!("f{}.js", c.below(5)) },
     6 => {
-      let t = text(c, cfg.max_tokens);
+      let t = text_cfg(c, cfg);
       let am = abs_map(c, cfg.wild);
-      let map = concretize_map(&t, &am, false);
+      let map = concretize_map(&t, &am, cfg.ascii);
       Spec::Sms { text: t, name: format!("g{}.js", c.below(3)), map }
     }
     7 => {
-      let t = text(c, cfg.max_tokens);
+      let t = text_cfg(c, cfg);
       let am = abs_map(c, cfg.wild);
-      let mut map = concretize_map(&t, &am, false);
-      let orig = text(c, cfg.max_tokens);
+      let mut map = concretize_map(&t, &am, cfg.ascii);
+      let orig = text_cfg(c, cfg);
       let aim = abs_map(c, cfg.wild);
-      let mut inner = concretize_map(&orig, &aim, false);
+      let mut inner = concretize_map(&orig, &aim, cfg.ascii);
       for s in inner.sources.iter_mut() {
         *s = format!("i{s}");
       }
@@ -106,7 +156,7 @@ pub fn spec(c: &mut Cur, depth: u32, cfg: GenCfg) -> Spec {
     }
     8 | 9 => {
       let n = c.below(cfg.max_children + 1);
-      let how = c.u8() % 3;
+      let how = c.u8() % 4;
       Spec::Concat { how, children: (0..n).map(|_| spec(c, depth - 1, cfg)).collect() }
     }
     10 | 11 => {
@@ -118,7 +168,8 @@ pub fn spec(c: &mut Cur, depth: u32, cfg: GenCfg) -> Spec {
       let abs: Vec<AbsRepl> = (0..n)
         .map(|_| {
           let flags = c.u8();
-          AbsRepl::new(c.u16(), c.u16(), flags & 3 == 0, if flags & 0x1c == 0 { 1 + (flags >> 5) % 3 } else { 0 }, if flags & 0x20 != 0 { String::new() } else { text(c, 3) }, c.u8() % 6, c.u8() % 3)
+          let content = if flags & 0x20 != 0 { String::new() } else { text_cfg(c, GenCfg { max_tokens: 3, ..cfg }) };
+          AbsRepl::new(c.u16(), c.u16(), flags & 3 == 0, if flags & 0x1c == 0 { 1 + (flags >> 5) % 3 } else { 0 }, content, c.u8() % 6, c.u8() % 3)
         })
         .collect();
       let repls = concretize_repls(&t, &pool, &abs, cfg.huge_positions);
